@@ -4,6 +4,7 @@ Backend for generating Python types that match the spec.
 
 
 import argparse
+import datetime
 import itertools
 import re
 
@@ -124,6 +125,13 @@ class PythonTypesBackend(CodeBackend):
         self.emit("from __future__ import unicode_literals")
 
         self.emit_raw(validators_import)
+
+        if any(isinstance(attr_value, datetime.datetime)
+               for route in namespace.routes
+               for attr_value in route.attrs.values()):
+            # Timestamp route attributes are printed as datetime.datetime(...).
+            self.emit('import datetime')
+            self.emit()
 
         # Generate import statements for all referenced namespaces.
         self._generate_imports_for_referenced_namespaces(namespace)
